@@ -6,6 +6,8 @@ Floats are the 16 hex digits of their IEEE bits.
 
   dacc <nv> M*(nv*nv) Mhat*(nv*nv) a_d*nv   -> x*nv  with  M x = Mhat a_d   (model of mj_discreteAcc)
                                             -> fail  when M is not numerically positive definite
+  dacce <disEulerDamp 0|1> <disDamper 0|1> <anyDamping 0|1> <nv> M*(nv*nv) Mhat*(nv*nv) a_d*nv
+                                            -> x*nv  (Euler case: the correction only when the branch condition holds)
 -/
 open MjProof MjProof.Driver MjProof.FwdInv
 
@@ -15,6 +17,8 @@ def showFs (l : List Float) : String := " ".intercalate (l.map floatBits)
 def chunks {β : Type} (k : Nat) : (fuel : Nat) → List β → List (List β)
   | 0, _ => []
   | fuel + 1, l => if l.isEmpty ∨ k = 0 then [] else l.take k :: chunks k fuel (l.drop k)
+
+def bool? (s : String) : Option Bool := if s == "0" then some false else if s == "1" then some true else none
 
 def step (line : String) : String :=
   match words line with
@@ -30,6 +34,18 @@ def step (line : String) : String :=
       | some x => if x.length = nv then showFs x else "fail"
       | none => "fail"
     | _, _ => "bad-op"
+  | "dacce" :: f1 :: f2 :: f3 :: nv :: rest =>
+    match bool? f1, bool? f2, bool? f3, nv.toNat?, fls? rest with
+    | some f1, some f2, some f3, some nv, some xs =>
+      if nv = 0 ∨ xs.length ≠ 2 * nv * nv + nv then "bad-op" else
+      let M := chunks nv nv (xs.take (nv * nv))
+      let Mhat := chunks nv nv ((xs.drop (nv * nv)).take (nv * nv))
+      let ad := xs.drop (2 * nv * nv)
+      if M.length ≠ nv ∨ Mhat.length ≠ nv then "bad-op" else
+      match discreteAccEuler f1 f2 f3 M Mhat ad with
+      | some x => if x.length = nv then showFs x else "fail"
+      | none => "fail"
+    | _, _, _, _, _ => "bad-op"
   | _ => "bad-op"
 
 def main : IO Unit := runStateless step
